@@ -14,7 +14,7 @@ import torch
 
 from .. import aggs, autojac as aj, programs as P
 from ..core import fingerprint
-from . import C02
+from . import C02, C20
 from ._common import run_cases, shard_rng, split_shards, tolist
 
 ID = "C06"
@@ -173,6 +173,7 @@ def check_case(case, ctx):
     last_call = None
     vio = None
     created_then_acc = False
+    glob0 = C20._global_state()
     kept = []  # gradient tensors the caller took out of .grad and still holds: (leaf, tensor, value, version)
 
     def keep(j, old):
@@ -317,6 +318,11 @@ def check_case(case, ctx):
 
     def check_world(label, untouched):
         nonlocal vio
+        if C20._global_state() != glob0:
+            # "modify no other state": the process-wide switches (grad mode, default dtype, ...) included
+            vio = ("global_state_changed", {"step": label, "before": glob0, "after": C20._global_state()})
+            C20._restore_global_state(glob0)
+            return
         for j in untouched:
             got = w.L[j].grad
             if shadow[j] is None:
